@@ -67,3 +67,24 @@ def opGmmMstepMap (j : Json) : Json :=
   let pc := mapMStepCode cfg ubm p st (Float.ofNat st.t)
   obj (oParams ps ++ [("v_code", o2 pc.variances)])
 end Drv
+
+namespace Drv
+def rdRaw (j : Json) : RawStats Float :=
+  { nG := rdN (getJ j "nG"), nF := rdN (getJ j "nF"), ll := rdF (getJ j "ll"), t := rdN (getJ j "t"),
+    n := rd1 (getJ j "n"), px := rd2 (getJ j "px"), pxx := rd2 (getJ j "pxx") }
+/-- stats_add: `a + b` / `a += b` with the declared-shape check -/
+def opStatsAdd (j : Json) : Json :=
+  match (rdRaw (getJ j "a")).add? (rdRaw (getJ j "b")) with
+  | none => obj [("err", "shape-mismatch")]
+  | some s => obj [("nG", toJson s.nG), ("nF", toJson s.nF), ("ll", oF s.ll), ("t", toJson s.t),
+      ("n", Json.arr (s.n.map oF)), ("px", Json.arr (s.px.map fun r => Json.arr (r.map oF))),
+      ("pxx", Json.arr (s.pxx.map fun r => Json.arr (r.map oF)))]
+end Drv
+
+namespace Drv
+/-- em_stop: the EM loop's stopping rule replayed on a recorded criterion sequence -/
+def opEmStop (j : Json) : Json :=
+  let thr : Option Float := match getJ j "thr" with | Json.null => none | t => some (rdF t)
+  let crit := rd1 (getJ j "crit")
+  obj [("k", toJson (stopIndex thr (rdN (getJ j "fuel")) crit))]
+end Drv
